@@ -89,11 +89,21 @@ def run(ctx):
         facts_at[id(n)] = facts
 
     GuardWalker(on_expr=on_expr).walk_function(spy.node)
-    evals = [n for n in iter_own(spy.node) if isinstance(n, ast.Call) and index.callee(spy.mod, n, spy) in ("builtins.eval", "builtins.exec", "builtins.compile")]
+    # sync_property and the private helpers only it calls (an extracted `_eval_input_param`, `_wrap_annotation`, ...)
+    from ..region import Facts, Region
+
+    graph_ = graph
+    region = Region(index, graph_, spy)
+    rfacts = Facts(index, graph_)
+    evals = [
+        (g, n)
+        for g, n in region.nodes()
+        if isinstance(n, ast.Call) and index.callee(g.mod, n, g) in ("builtins.eval", "builtins.exec", "builtins.compile")
+    ]
     ctx.need(evals, "the opt-in eval vanished from sync_property")
-    for e in evals:
-        ok = (facts_at.get(id(e)) or {}).get("input_eval") is True
-        ctx.ob("C13.eval", spy, e, ok, "" if ok else "evaluation of the input module is not dominated by `input_eval`")
+    for g, e in evals:
+        ok = (rfacts.at(g, e, ascend_from=region.funcs[1:]) or {}).get("input_eval") is True
+        ctx.ob("C13.eval", g, e, ok, "" if ok else "evaluation of the input module is not dominated by `input_eval`")
     # the driver insists on a replacement having happened
     asserts = [n for n in iter_own(spy.node) if isinstance(n, ast.Assert) and "replaced" in norm(n.test)]
     ctx.ob("C13.visitor", spy, "assert rewrite_at_query.replaced", bool(asserts), "" if asserts else "a failed replacement would pass silently", line=spy.node.lineno)
@@ -101,7 +111,7 @@ def run(ctx):
     # --------------------------------------------------------------- index
     ctx.section(_index_spaces, ctx, index)
     ctx.section(_receiver_shift_agreement, ctx, index)
-    ctx.section(_wrap_unconditional, ctx, index, spy, facts_at)
+    ctx.section(_wrap_unconditional, ctx, index, spy, region, rfacts)
     ctx.section(_lookups, ctx, index, spy)
     ctx.section(_state, ctx, index)
 
@@ -199,26 +209,42 @@ def _receiver_shift_agreement(ctx, index):
     )
 
 
-def _wrap_unconditional(ctx, index, spy, facts_at):
+def _wrap_unconditional(ctx, index, spy, region, rfacts):
     """the wrap template is applied whenever it is given (and there is an annotation) — not depending on the text"""
+    # the template: sync_property's output_param_wrap, or the helper parameter it is handed to
+    tnames = {"output_param_wrap"}
+    for h in region.funcs[1:]:
+        for _caller, call in region.callsites.get(h.qual, ()):
+            for i, a in enumerate(call.args):
+                if isinstance(a, ast.Name) and a.id in tnames and i < len(h.params):
+                    tnames.add(h.params[i])
+            for k in call.keywords:
+                if k.arg and isinstance(k.value, ast.Name) and k.value.id in tnames:
+                    tnames.add(k.arg)
     sites = [
-        n
-        for n in iter_own(spy.node)
-        if isinstance(n, ast.Call) and isinstance(n.func, ast.Attribute) and n.func.attr == "format" and norm(n.func.value) == "output_param_wrap"
+        (g, n)
+        for g, n in region.nodes()
+        if isinstance(n, ast.Call) and isinstance(n.func, ast.Attribute) and n.func.attr == "format" and norm(n.func.value) in tnames
     ]
     ctx.need(sites, "the output_param_wrap template is no longer applied in sync_property")
-    for c in sites:
-        facts = facts_at.get(id(c)) or {}
+    for g, c in sites:
+        facts = rfacts.at(g, c, ascend_from=region.funcs[1:]) or {}
         extra = []
+        allowed = set(spy.params) | set(g.params) | {"replacement_node", "hasattr", "isinstance", "None"}
         for text in facts:
-            names = {x.id for x in ast.walk(ast.parse(text, mode="eval")) if isinstance(x, ast.Name)}
-            if not names <= {"output_param_wrap", "replacement_node", "hasattr", "input_eval", "None"}:
+            try:
+                tree = ast.parse(text, mode="eval")
+            except SyntaxError:
+                continue
+            names = {x.id for x in ast.walk(tree) if isinstance(x, ast.Name)}
+            calls = [x for x in ast.walk(tree) if isinstance(x, ast.Call) and norm(x.func) not in ("hasattr", "isinstance")]
+            if not names <= allowed or calls:
                 extra.append(text)
         ok = not extra
         ctx.ob(
             "C13.io",
-            spy,
-            c,
+            g,
+            "the wrap template is applied whenever given",
             ok,
             ""
             if ok
@@ -254,13 +280,9 @@ def _index_spaces(ctx, index):
     """every subscript of .defaults / .kw_defaults classified by the index space of its subscript"""
     ref = index.func("cdd.function.parse.function")
     # reference belief: function.parse pads defaults on the left (checked in detail by C02.align.parse)
-    pads_left = any(
-        isinstance(n, ast.BinOp)
-        and isinstance(n.op, ast.Add)
-        and "None" in norm(n.left)
-        and norm(n.right).startswith("getattr(function_def.args, ")
-        for n in iter_own(ref.node)
-    )
+    from .c02 import pads_defaults_on_the_left
+
+    pads_left = pads_defaults_on_the_left(index)
     ctx.need(pads_left, "the reference belief (function.parse pads defaults on the left) is no longer recognisable")
     n = 0
     for f in index.nontest_funcs():
@@ -277,7 +299,7 @@ def _index_spaces(ctx, index):
             ctx.ob(
                 "C13.index",
                 f,
-                node,
+                "`{}` is subscripted with a default index{}".format(norm(node.value), "" if ok else " [no: {}]".format(kind)),
                 ok,
                 ""
                 if ok
